@@ -308,10 +308,13 @@ def scanNumber : Bytes → Bool → Bool → Option (Bytes × Bool × Bytes)
 /-- a decimal text `strconv.ParseFloat` accepts, as far as the printer produces them: optional `-`, digits,
 `.`, digits, at least one digit overall -/
 def floatTextOK (t : Bytes) : Bool :=
-  let body := match t with
-    | 45 :: r => r
-    | _ => t
+  let body := if t.head? == some 45 then t.drop 1 else t
   body.any isDigitB && body.all (fun c => isDigitB c || c == 46)
+
+/-- put a token in front of what the rest of the text lexes to -/
+def consTok (t : Tok) (pos len : Nat) : LR → LR
+  | .ok ts => .ok (⟨t, pos, pos + len⟩ :: ts)
+  | r => r
 
 def lexFuel : Nat → Bytes → Nat → LR
   | 0, _, _ => .unsupported
@@ -320,9 +323,7 @@ def lexFuel : Nat → Bytes → Nat → LR
     | [] => .ok []
     | c :: rest =>
       let cont (t : Tok) (len : Nat) (after : Bytes) : LR :=
-        match lexFuel fuel after (pos + len) with
-        | .ok ts => .ok (⟨t, pos, pos + len⟩ :: ts)
-        | r => r
+        consTok t pos len (lexFuel fuel after (pos + len))
       if isSpace c then lexFuel fuel rest (pos + 1)
       else if c == 45 && rest.head? == some 62 then cont .arrow 2 (rest.drop 1)
       else if isPunct c then cont (.p c) 1 rest
@@ -360,6 +361,26 @@ def lexFuel : Nat → Bytes → Nat → LR
       else .err
 
 def lex (s : Bytes) : LR := lexFuel (s.length + 1) s 0
+
+/-- the decimal texts the printer writes for floats: optional `-`, digits with exactly one `.` -/
+def floatShape (t : Bytes) : Bool :=
+  let body := if t.head? == some 45 then t.drop 1 else t
+  body.any isDigitB && body.all (fun c => isDigitB c || c == 46) && (body.filter (· == 46)).length == 1
+
+/-- a token whose printed text lexes back to it (given that what follows cannot continue it) -/
+def Tok.lexable : Tok → Bool
+  | .sym s => match s with
+    | [] => false
+    | c :: rest => isLetter c && rest.all isSymbolRune
+  | .str s => s.all fun c => (32 ≤ c && c ≤ 126 && c ≠ 34 && c ≠ 92) || c ≥ 128
+  | .int i => decide (-9223372036854775808 ≤ i) && decide (i < 9223372036854775808)
+  | .float t => floatShape t
+  | .id f => f.isValid && decide (f.value < 2 ^ 64) && (B6.Model.FeatureID.unparse f true).all isIDByte
+  | .tagKey s => match s with
+    | [] => false
+    | c :: body => (c == 35 || c == 64) && body.all isSymbolRune
+  | .arrow => true
+  | .p c => isPunct c
 
 /-! ## parsing (`shell.y` + the `reduce*` functions) -/
 
@@ -660,9 +681,9 @@ def idLexable (f : FeatureID) : Bool :=
 
 def Lit.printable (esc : Bool) : Lit → Bool
   | .str s => esc || plain s
-  | .int _ => true
-  | .float t => floatTextOK t
-  | .point lat lng => floatTextOK lat && floatTextOK lng
+  | .int i => decide (-9223372036854775808 ≤ i) && decide (i < 9223372036854775808)     -- a Go `int`
+  | .float t => floatShape t
+  | .point lat lng => floatShape lat && floatShape lng
   | .id f => idLexable f
   | .tag k v => k ≠ [] && keyBare k && (valueBare v || plain v || esc)
   | .query q => q.printable esc
